@@ -49,7 +49,7 @@ REQUIRED = {
 }
 MIN_NONTRIVIAL = {'quick': 300, 'thorough': 5000}
 T0 = datetime.datetime(2021, 3, 1)
-ORIGINS = [datetime.datetime(2021, 3, 1), datetime.datetime(2021, 3, 1), datetime.datetime(1969, 12, 31, 20), datetime.datetime(1958, 7, 1), datetime.datetime(2037, 12, 1)]
+ORIGINS = [datetime.datetime(2021, 3, 1), datetime.datetime(2021, 3, 1), datetime.datetime(1969, 12, 31, 20), datetime.datetime(1958, 7, 1), datetime.datetime(2037, 12, 1), datetime.datetime(2041, 3, 1), datetime.datetime(2106, 2, 6, 12)]
 ZONES = {'UTC': 0, 'Etc/GMT-7': 7 * 3600, 'Etc/GMT+3': -3 * 3600, 'Etc/GMT-12': 12 * 3600}
 
 
